@@ -127,3 +127,49 @@ def collect(h):
     doc = fn.__doc__
     h.strlist("rtwServerKeys", sorted(c for c in consts if c != doc and c != "mutable_read_test_write"),
               "string constants looked up by HTTPServer.mutable_read_test_write")
+
+
+def zero_length_read_mode():
+    """What `http_client.read_share_chunk(..., length=0)` does, observed on the live function with a stub client whose
+    server answers 404 to everything:
+      "raise"  ValueError before anything is sent (werkzeug cannot build an empty Range),
+      "empty"  returns b"" without sending a request (so a missing share is not noticed),
+      "probe"  sends a one-byte range request (so a missing share still surfaces as ClientException(404)).
+    Anything else makes the extractor fail."""
+    from allmydata.storage import http_client as hc
+    from hyperlink import DecodedURL
+    sent = []
+
+    class Resp:
+        code = 404
+        phrase = b"NOT FOUND"
+
+    class StubClient:
+        _clock = None
+
+        def relative_url(self, path):
+            return DecodedURL.from_text("http://127.0.0.1").click(path)
+
+        async def request(self, method, url, headers=None, **kw):
+            sent.append(headers.getRawHeaders("range") if headers is not None else None)
+            return Resp()
+
+    res, err = [], []
+    d = hc.read_share_chunk(StubClient(), "immutable", b"\x00" * 16, 0, 5, 0)
+    d.addCallbacks(res.append, err.append)
+    if res and res[0] == b"" and not sent:
+        return "empty"
+    if err and err[0].check(ValueError, AssertionError) and not sent:
+        return "raise"
+    if err and err[0].check(hc.ClientException) and err[0].value.code == 404 and sent == [["bytes=5-5"]]:
+        return "probe"
+    raise ValueError("unmodelled zero-length read behaviour: result=%r error=%r sent=%r" % (res, err, sent))
+
+
+_collect_base = collect
+
+
+def collect(h):
+    _collect_base(h)
+    h.str("zeroLengthRead", zero_length_read_mode(),
+          "what http_client.read_share_chunk(length=0) does: raise | empty | probe (see extract_parts/http.py)")
